@@ -56,7 +56,7 @@ def run(tier, rep):
     def work(ib):
         i, b = ib
         trace, _ = sim.run_sim("C20", "b%02d" % i, b, nproc=1)
-        return vlib.validate_traces("C20", "Trace_Qlog", TRACE_CFG, trace, nchunks=1, max_violations=40), trace
+        return vlib.validate_traces("C20", "Trace_Qlog", TRACE_CFG, trace, nchunks=1, max_violations=40, tag="_b%02d" % i), trace
 
     with ThreadPoolExecutor(max_workers=min(nb, vlib.NCPU)) as ex:
         results = list(ex.map(work, enumerate(batches)))
